@@ -5,14 +5,15 @@ go 1.23
 toolchain go1.23.5
 
 require (
+	dubbo.apache.org/dubbo-go/v3 v3.0.4
 	github.com/apache/dubbo-getty v1.5.0
 	github.com/arana-db/parser v0.2.17
+	google.golang.org/grpc v1.56.3
 	pgregory.net/rapid v1.3.0
 	seata.apache.org/seata-go v0.0.0
 )
 
 require (
-	dubbo.apache.org/dubbo-go/v3 v3.0.4 // indirect
 	github.com/RoaringBitmap/roaring v1.2.0 // indirect
 	github.com/Workiva/go-datastructures v1.0.52 // indirect
 	github.com/apache/dubbo-go-hessian2 v1.11.4 // indirect
@@ -69,12 +70,45 @@ require (
 	golang.org/x/sys v0.15.0 // indirect
 	golang.org/x/text v0.14.0 // indirect
 	google.golang.org/genproto v0.0.0-20230410155749-daa745c078e1 // indirect
-	google.golang.org/grpc v1.56.3 // indirect
 	google.golang.org/protobuf v1.30.0 // indirect
 	gopkg.in/natefinch/lumberjack.v2 v2.0.0 // indirect
 	gopkg.in/yaml.v2 v2.4.0 // indirect
 	gopkg.in/yaml.v3 v3.0.1 // indirect
 	vimagination.zapto.org/byteio v0.0.0-20200222190125-d27cba0f0b10 // indirect
+)
+
+require (
+	github.com/BurntSushi/toml v1.1.0 // from /repo/go.mod
+	github.com/DATA-DOG/go-sqlmock v1.5.0 // from /repo/go.mod
+	github.com/agiledragon/gomonkey/v2 v2.12.0 // from /repo/go.mod
+	github.com/bits-and-blooms/bitset v1.2.0 // from /repo/go.mod
+	github.com/bytedance/sonic v1.9.1 // from /repo/go.mod
+	github.com/chenzhuoyu/base64x v0.0.0-20221115062448-fe3a3abad311 // from /repo/go.mod
+	github.com/gabriel-vasile/mimetype v1.4.2 // from /repo/go.mod
+	github.com/gin-contrib/sse v0.1.0 // from /repo/go.mod
+	github.com/gin-gonic/gin v1.9.1 // from /repo/go.mod
+	github.com/go-ole/go-ole v1.2.6 // from /repo/go.mod
+	github.com/go-playground/locales v0.14.1 // from /repo/go.mod
+	github.com/go-playground/universal-translator v0.18.1 // from /repo/go.mod
+	github.com/go-playground/validator/v10 v10.14.0 // from /repo/go.mod
+	github.com/golang/mock v1.6.0 // from /repo/go.mod
+	github.com/json-iterator/go v1.1.12 // from /repo/go.mod
+	github.com/klauspost/cpuid/v2 v2.2.4 // from /repo/go.mod
+	github.com/leodido/go-urn v1.2.4 // from /repo/go.mod
+	github.com/lufia/plan9stats v0.0.0-20211012122336-39d0f177ccd0 // from /repo/go.mod
+	github.com/modern-go/concurrent v0.0.0-20180306012644-bacd9c7ef1dd // from /repo/go.mod
+	github.com/modern-go/reflect2 v1.0.2 // from /repo/go.mod
+	github.com/mschoch/smat v0.2.0 // from /repo/go.mod
+	github.com/pelletier/go-toml/v2 v2.0.8 // from /repo/go.mod
+	github.com/pmezard/go-difflib v1.0.0 // from /repo/go.mod
+	github.com/power-devops/perfstat v0.0.0-20210106213030-5aafc221ea8c // from /repo/go.mod
+	github.com/stretchr/testify v1.8.3 // from /repo/go.mod
+	github.com/twitchyliquid64/golang-asm v0.15.1 // from /repo/go.mod
+	github.com/ugorji/go/codec v1.2.11 // from /repo/go.mod
+	github.com/yusufpapurcu/wmi v1.2.2 // from /repo/go.mod
+	golang.org/x/arch v0.3.0 // from /repo/go.mod
+	golang.org/x/crypto v0.17.0 // from /repo/go.mod
+	vimagination.zapto.org/memio v0.0.0-20200222190306-588ebc67b97d // from /repo/go.mod
 )
 
 replace seata.apache.org/seata-go => /repo
